@@ -30,7 +30,7 @@ func cutCases(prop, tier string, seed uint64) []Case {
 	}
 	nAll, nSampled := 4, 8
 	if tier == "thorough" {
-		nAll, nSampled = 16, 80
+		nAll, nSampled = 48, 240
 		cfgs = append(cfgs, Cfg{Enc: "pgp", Level: "fastest", RS: 2, WC: "file"}, Cfg{Comp: "zstandard", Level: "fastest", RS: 64, WC: "file"},
 			Cfg{Comp: "lz4", Enc: "age", Sig: "pgp", Level: "balanced", RS: 3, WC: "memory"}, Cfg{Comp: "bzip2", Sig: "minisign", Level: "fastest", RS: 20, WC: "file"})
 	}
